@@ -40,12 +40,16 @@ Legal(form, opt, pos) ==
 
 \* ---- scale: (family, n); the sizes stay below 8 KiB (the harness reports the byte size; the bound scales above that)
 ScaleFamilies == {"dag", "cyc", "aliaschain", "ifacechain", "ifacedense", "seqnest", "dictnest", "resnest", "parens", "nots", "files", "longid", "fields",
-                  "enumerators", "attrs", "doclines", "doctags", "optchain", "modulenest", "dagseq", "cycopt"}
+                  "enumerators", "attrs", "doclines", "doctags", "optchain", "modulenest", "dagseq", "cycopt", "aliasdouble", "keydouble"}
 ScaleSizes(f) ==
   CASE f \in {"dag", "dagseq"} -> IF ScaleTier = "quick" THEN {4, 8, 12, 16, 20, 24, 26, 28, 32} ELSE 2..40
     \* complete cyclic graphs: 9 nodes take about a second, 11 nodes minutes (n = 10 sits at the bound and is left out: a
     \* check must not depend on the load of the machine); 11 and 12 are recorded as an open finding
     [] f \in {"cyc", "cycopt"} -> IF ScaleTier = "quick" THEN {2, 3, 4, 5, 6, 7, 8, 9, 11} ELSE {2, 3, 4, 5, 6, 7, 8, 9, 11, 12}
+    \* aliases that name the alias before them twice ('typealias A3 = Result<A2, A2>') and compact key structs that hold the one
+    \* before them twice: what is walked doubles with every level (24 levels: a second; 28: at the bound, left out; 32: recorded
+    \* as an open finding)
+    [] f \in {"aliasdouble", "keydouble"} -> IF ScaleTier = "quick" THEN {4, 12, 20, 24, 32} ELSE {2, 4, 8, 12, 16, 20, 22, 24, 32}
     [] f = "ifacedense" -> IF ScaleTier = "quick" THEN {4, 8, 12, 16, 20, 24, 28, 32, 40} ELSE 2..40   \* (40 interfaces: 5 KiB)
     [] f \in {"seqnest", "dictnest", "resnest", "parens", "nots", "modulenest"} -> IF ScaleTier = "quick" THEN {1, 8, 64, 256, 700} ELSE {1, 2, 4, 8, 16, 32, 64, 128, 256, 512, 700}
     [] f = "files" -> IF ScaleTier = "quick" THEN {1, 16, 64} ELSE {1, 2, 4, 8, 16, 32, 64}
@@ -69,9 +73,15 @@ UsageError(o) ==
     [] o.opt \in {"--bogus", "-G-missing-value"} -> TRUE
     [] OTHER -> FALSE                                                       \* -D and -O take any text, also the empty string
 
+\* definitions that take the name of something built in (written escaped), in a module or - illegally - outside of any, in
+\* front of something that uses the plain keyword
+TakenNames == {"int32", "string", "bool", "uint8", "varuint62", "float64", "Sequence", "Dictionary", "Result", "module", "Foo"}
+DefKinds == {"struct", "cstruct", "enum", "enumu8", "custom", "alias", "interface"}
+Uses == {"none", "field", "param", "ret", "underlying", "aliastarget", "element", "key", "base", "self"}
 VARIABLE c
 Init ==
-  CASE Family = "soup" -> c \in [fam : {"soup"}, ctx : Contexts, glue : Glues, toks : SeqsOver(Tokens, 1, MaxSoup)]
+  CASE Family = "taken" -> c \in [fam : {"taken"}, name : TakenNames, kind : DefKinds, use : Uses, inmodule : BOOLEAN, second : BOOLEAN]
+    [] Family = "soup" -> c \in [fam : {"soup"}, ctx : Contexts, glue : Glues, toks : SeqsOver(Tokens, 1, MaxSoup)]
     [] Family = "typepos" -> c \in [fam : {"typepos"}, form : Forms, opt : BOOLEAN, pos : Positions]
     [] Family = "scale" -> c \in UNION {[fam : {"scale"}, f : {f}, n : ScaleSizes(f)] : f \in ScaleFamilies}
     [] Family = "options" -> c \in [fam : {"options"}, o : OptionCases, second : BOOLEAN]
